@@ -25,7 +25,8 @@ theorem C10_derefs_accounted : derefs.all (fun d => sites.contains d) = true := 
 
 /-- Unchecked type assertions and index expressions over client-controlled values are the known ones. -/
 theorem C10_assertions_known :
-    typeAssertions = knownTypeAssertions ∧ indexExprs = knownIndexExprs := by decide
+    typeAssertions = knownTypeAssertions ∧ indexExprs = knownIndexExprs ∧
+    failedAssertionUses = knownFailedAssertionUses := by decide
 
 /-- The media code behind the handlers (Janus client, proxy MCU client, media proxy), where the payload
 of a client message travels as plain maps and interface values: every single-value type assertion, every
@@ -37,6 +38,24 @@ theorem C10_media_tables_reviewed :
     Generated.ShapesMedia.mediaIndexExprs = ShapesMedia.reviewedIndexExprs ∧
     Generated.ShapesMedia.mediaMapWrites = ShapesMedia.reviewedMapWrites ∧
     Generated.ShapesMedia.mediaDerefs = ShapesMedia.reviewedDerefs := by decide
+
+/-- The code that handles a server message built from client data on the *recipient's* side (delivery,
+filtering, queueing for a recipient without connection, flushing on resume; `tools/extract/shapesdeferred.go`):
+the decodes of raw bytes, the unguarded dereferences below a `*ServerMessage` / `*AsyncMessage`, the calls
+such a message flows into, the type assertions and index expressions are the reviewed ones
+(`Model/ShapesDeferred.lean`), and every unguarded dereference below a payload that is decoded again is a
+`crash` branch of the model. -/
+theorem C10_deferred_tables_reviewed :
+    Generated.ShapesDeferred.payloadParsers = ShapesDeferred.reviewedPayloadParsers ∧
+    Generated.ShapesDeferred.payloadDerefs.all (fun d => ShapesDeferred.payloadSites.contains d) = true ∧
+    Generated.ShapesDeferred.envelopeDerefs = ShapesDeferred.reviewedEnvelopeDerefs ∧
+    Generated.ShapesDeferred.envelopeFlows = ShapesDeferred.reviewedEnvelopeFlows ∧
+    Generated.ShapesDeferred.deferredTypeAssertions = ShapesDeferred.reviewedTypeAssertions ∧
+    Generated.ShapesDeferred.deferredIndexExprs = ShapesDeferred.reviewedIndexExprs := by decide
+
+/-- On the tree as it is, no pointer member of a payload that is decoded again (`IsChatRefresh`,
+`filterMessage`) is dereferenced without a nil check. -/
+theorem C10_payload_derefs_guarded : Generated.ShapesDeferred.payloadDerefs = [] := by decide
 
 /-- Decode and validate precede every use; only `hello` is dispatched without a
 session; binary frames are answered; the read limit is the constant; the
@@ -114,7 +133,8 @@ theorem modelHello_no_crash (st : St) (m : ClientMessage) (hv : checkValid Fc m 
     rw [ha]
     simp only []
     have hvb : Fc.validateBeforeDispatch = true := by decide
-    simp only [hvb, if_true]
+    have hreg : (Fc.failedAssertionUses.any fun d => decide (d.1 = "Hub.processRegister")) = false := by decide
+    simp only [hvb, hreg, if_true, Bool.false_eq_true, if_false]
     by_cases hc : effType a = "client" ∨ effType a = "federation"
     · rw [if_pos hc]
       rcases hurl hc with hu | hu <;> rw [hu] <;> simp only []
@@ -165,18 +185,25 @@ theorem modelMessage_no_crash (st : St) (s : Sess) (m : ClientMessage) (hv : che
   simp only [hmedia, if_true]
   split
   · cases hd : checkData mm.data with
-    | ok => simp only []; repeat (first | split | simp)
+    | ok =>
+      simp only []
+      repeat' split
+      all_goals first
+        | (intro h; exact deliver_no_crash _ _ _ _ _ (amb_crash h))
+        | simp
     | err c => simp
     | crash s2 => exact absurd hd (checkData_no_crash _ _)
-  · simp
+  · intro h; exact deliver_no_crash _ _ _ _ _ (amb_crash h)
 
 theorem modelControl_no_crash (st : St) (s : Sess) (m : ClientMessage) (hv : checkValid Fc m = .ok) (ht : m.mtype = "control")
-    (site : String) : modelControl st s m ≠ .crash site := by
+    (site : String) : modelControl Fc st s m ≠ .crash site := by
   obtain ⟨mm, hm, _⟩ := valid_control hv ht
   unfold modelControl
   rw [hm]
   simp only []
-  split <;> simp
+  split
+  · simp
+  · intro h; exact deliver_no_crash _ _ _ _ _ (amb_crash h)
 
 theorem dialoutHandler_no_crash (i : Internal) (site : String) : dialoutHandler Fc i ≠ .crash site := by
   have hg : dialoutHandlerGuarded Fc = true := by decide
@@ -296,7 +323,10 @@ theorem processMessage_no_crash (st : St) (m : ClientMessage) (site : String) : 
       simp only [hpre, true_and]
       by_cases ht : m.mtype = "hello"
       · simp only [ht, ne_eq, not_true_eq_false, if_false]
-        exact modelHello_no_crash _ _ hv ht _
+        intro h
+        cases hx : modelHello Fc st m with
+        | crash s2 => exact modelHello_no_crash _ _ hv ht _ hx
+        | ok o n => simp [hx, Outcome.remoteSt] at h
       · simp [ht]
     | session s =>
       simp only []
@@ -434,12 +464,25 @@ theorem modelRoom_by (st : St) (s : Sess) (m : ClientMessage) (o : Obs) (next : 
     all_goals (repeat' (rcases hk with hk | hk))
     all_goals simp_all
 
-theorem route_by (s : Sess) (kind : String) (rc : Recipient) (hv : Bool) (k : String)
-    (hk : k ∈ (route s kind rc hv).bMust ++ (route s kind rc hv).bMay) : namesBystander s rc = true ∧ k = kind := by
+theorem route_by (s : Sess) (kind : String) (rc : Recipient) (hv ic : Bool) (k : String)
+    (hk : k ∈ (route s kind rc hv ic).bMust ++ (route s kind rc hv ic).bMay) : namesBystander s rc = true ∧ k = kind := by
   unfold route at hk
   unfold namesBystander
   repeat' split at hk
   all_goals simp_all [Sess.inBy]
+
+/-- What the recipient's side (`deliver`) leaves of a routed message is still only what `route` addressed. -/
+theorem forwarded_by {st : St} {s : Sess} {kind base : String} {d : ServerData} {rc : Recipient} {hv ic : Bool}
+    {o : Obs} {next : St} {k : String}
+    (h : (deliver Fc st base d (route s kind rc hv ic)).amb s = .ok o next) (hk : k ∈ o.bMust ++ o.bMay) :
+    namesBystander s rc = true ∧ k = kind := by
+  obtain ⟨o', hx, h1, h2⟩ := amb_ok_inv h
+  obtain ⟨hm, hmay⟩ := deliver_ok_inv hx
+  rw [h1, h2, hmay] at hk
+  rcases hm with hm | hm
+  · rw [hm] at hk; exact route_by s kind rc hv ic k hk
+  · rw [hm] at hk
+    exact route_by s kind rc hv ic k (by simp only [List.nil_append] at hk; exact List.mem_append_right _ hk)
 
 theorem modelMessage_by (st : St) (s : Sess) (m : ClientMessage) (o : Obs) (next : St) (hv : checkValid Fc m = .ok)
     (ht : m.mtype = "message") (h : modelMessage Fc st s m = .ok o next) :
@@ -455,15 +498,16 @@ theorem modelMessage_by (st : St) (s : Sess) (m : ClientMessage) (o : Obs) (next
   simp only [hdv, fwdKind, hmedia, if_true] at h ⊢
   simp only [hr]
   repeat' split at h
-  all_goals (first | (cases h; done) | skip)
-  all_goals (injection h with ho hn; subst ho)
-  all_goals (first
-    | (simp [errObs] at hk; done)
-    | (have := route_by s "message" mm.recipient _ k (by simpa using hk); simp [this.1, this.2]; done)
-    | (simp [mcuObs, namesBystander] at hk ⊢; simp_all; done))
+  all_goals first
+    | (cases h; done)
+    | (have := forwarded_by h hk; simp [this.1, this.2]; done)
+    | (injection h with ho hn; subst ho
+       first
+        | (simp [errObs] at hk; done)
+        | (simp [mcuObs, namesBystander] at hk ⊢; simp_all; done))
 
 theorem modelControl_by (st : St) (s : Sess) (m : ClientMessage) (o : Obs) (next : St) (hv : checkValid Fc m = .ok)
-    (ht : m.mtype = "control") (h : modelControl st s m = .ok o next) :
+    (ht : m.mtype = "control") (h : modelControl Fc st s m = .ok o next) :
     ∀ k, k ∈ o.bMust ++ o.bMay → k ∈ addrSession st s m := by
   intro k hk
   obtain ⟨mm, hr, hmv⟩ := valid_control hv ht
@@ -475,11 +519,10 @@ theorem modelControl_by (st : St) (s : Sess) (m : ClientMessage) (o : Obs) (next
   simp only [hdv, fwdKind, if_true] at h ⊢
   simp only [hr]
   repeat' split at h
-  all_goals (first | (cases h; done) | skip)
-  all_goals (injection h with ho hn; subst ho)
-  all_goals (first
-    | (simp at hk; done)
-    | (have := route_by s "control" mm.recipient _ k (by simpa using hk); simp [this.1, this.2]; done))
+  all_goals first
+    | (cases h; done)
+    | (have := forwarded_by h hk; simp [this.1, this.2]; done)
+    | (injection h with ho hn; subst ho; simp at hk; done)
 
 theorem internalSwitch_by (st : St) (s : Sess) (i : Internal) (http : Option String) (o : Obs) (next : St)
     (hs : s.internal = true) (h : internalSwitch st s i http = .ok o next) :
@@ -664,8 +707,14 @@ theorem C10_bystanders (st : St) (f : Frame) (o : Obs) (next : St) (h : processF
             simp only [Bool.not_true, Bool.false_eq_true, false_and, if_false, hpre, true_and] at hx
             split at hx
             · injection hx with ho hn; subst ho; simp [errObs] at hk
-            · have := modelHello_by _ _ _ _ hx
-              simp [this.1, this.2] at hk
+            · cases hy : modelHello Fc st m with
+              | crash s2 => simp [hy, Outcome.remoteSt] at hx
+              | ok o2 n2 =>
+                have := modelHello_by _ _ _ _ hy
+                rw [hy] at hx
+                simp only [Outcome.remoteSt] at hx
+                injection hx with ho hn; subst ho
+                split at hk <;> simp [this.1, this.2] at hk
   | session s =>
     rw [hc] at h; simp only [] at h
     obtain ⟨o', hx, hb1, hb2⟩ := withHttp_ok_inv h
@@ -707,14 +756,14 @@ theorem C10_bystanders (st : St) (f : Frame) (o : Obs) (next : St) (h : processF
               simp [this.1, this.2] at hk
             · exact dispatchSession_by _ _ _ _ _ hv hx k hk
 
-/-- A plain `message` (no media server involved) whose recipient names the
-bystander's session or user, or the room the sender shares with it, *is*
-delivered: together with `C10_bystanders` the bystander gets exactly that. -/
-theorem C10_addressed_message_delivered (st : St) (s : Sess) (m : ClientMessage) (mm : MessageMsg) (size : Nat)
+/-- Where a valid plain `message` of an established session goes when no media server and no federation
+target is involved: `route` says whom the content addresses, `deliver` what the recipient's side makes of it. -/
+theorem processFrame_plain_message (st : St) (s : Sess) (m : ClientMessage) (mm : MessageMsg) (size : Nat)
     (hc : st.conn = .session s) (hfed : s.fed = false) (hmcu : st.world.mcu = false) (hsz : size ≤ Fc.maxMessageSize)
-    (hv : checkValid Fc m = .ok) (ht : m.mtype = "message") (hmm : m.message = some mm)
-    (hn : namesBystander s mm.recipient = true) (hcall : mm.recipient.rtype ≠ "call") :
-    ∃ o, processFrame Fc st { size := size, binary := false, dec := .ok m } = .ok o st ∧ o.bMust = ["message"] := by
+    (hv : checkValid Fc m = .ok) (ht : m.mtype = "message") (hmm : m.message = some mm) :
+    processFrame Fc st { size := size, binary := false, dec := .ok m } =
+      withHttp st ((deliver Fc st "message" mm.sdata
+        (route s "message" mm.recipient (!st.world.virt.isEmpty) st.world.rcpt.inCall)).amb s) := by
   have hvb : Fc.validateBeforeDispatch = true := by decide
   have hlb : Fc.messageCounterLabelFromFixedSet = true := by decide
   have hno : ¬ (Fc.readLimitIsMaxMessageSize = true ∧ size > Fc.maxMessageSize) := by intro h; omega
@@ -722,23 +771,8 @@ theorem C10_addressed_message_delivered (st : St) (s : Sess) (m : ClientMessage)
     obtain ⟨mm', hm', hmv⟩ := valid_message hv ht
     rw [hmm] at hm'; injection hm' with hm'; subst hm'
     exact message_data_valid hmv
-  have hroute : (route s "message" mm.recipient (!st.world.virt.isEmpty)).bMust = ["message"] := by
-    unfold namesBystander at hn
-    unfold route
-    by_cases h1 : mm.recipient.rtype = "session"
-    · simp only [h1, if_true]
-      simp [h1] at hn
-      simp [hn]
-    · by_cases h2 : mm.recipient.rtype = "user"
-      · simp only [h1, h2, if_true, if_false]
-        simp [h2] at hn
-        simp [hn]
-      · by_cases h3 : mm.recipient.rtype = "room"
-        · simp [h1, h2, h3] at hn
-          simp [h1, h2, h3, hn, Sess.inBy]
-        · simp [h1, h2, h3, hcall] at hn
   have hproc : processMessage Fc st m =
-      .ok (withAmbient s (route s "message" mm.recipient (!st.world.virt.isEmpty))) st := by
+      (deliver Fc st "message" mm.sdata (route s "message" mm.recipient (!st.world.virt.isEmpty) st.world.rcpt.inCall)).amb s := by
     unfold processMessage
     simp only [hvb, hlb, if_true, hv, hc, hfed]
     simp only [Bool.not_true, Bool.false_eq_true, false_and, if_false]
@@ -751,8 +785,101 @@ theorem C10_addressed_message_delivered (st : St) (s : Sess) (m : ClientMessage)
   rw [hc]
   simp only [Bool.false_eq_true, false_and, if_false]
   rw [if_neg hno, hproc]
-  obtain ⟨h, hh⟩ := withHttp_ok st (withAmbient s (route s "message" mm.recipient (!st.world.virt.isEmpty))) st
-  exact ⟨_, hh, by simp [hroute]⟩
+
+theorem route_names_bystander (s : Sess) (rc : Recipient) (hv ic : Bool)
+    (hn : namesBystander s rc = true) (hcall : rc.rtype ≠ "call") : (route s "message" rc hv ic).bMust = ["message"] := by
+  unfold namesBystander at hn
+  unfold route
+  by_cases h1 : rc.rtype = "session"
+  · simp only [h1, if_true]
+    simp [h1] at hn
+    simp [hn]
+  · by_cases h2 : rc.rtype = "user"
+    · simp only [h1, h2, if_true, if_false]
+      simp [h2] at hn
+      simp [hn]
+    · by_cases h3 : rc.rtype = "room"
+      · simp [h1, h2, h3] at hn
+        simp [h1, h2, h3, hn, Sess.inBy]
+      · simp [h1, h2, h3, hcall] at hn
+
+/-- The recipient's side for a bystander that is connected and has no `hide-displaynames`: the message
+goes to its connection as it is. -/
+theorem deliver_attached (st : St) (kind : String) (d : ServerData) (o : Obs)
+    (hatt : st.world.rcpt.detached = false) (hhide : st.world.rcpt.hideNames = false) :
+    deliver Fc st kind d o = .ok o st := by
+  have hrev : Fc.deferredTablesReviewed = true := by decide
+  unfold deliver
+  split
+  · rfl
+  · unfold deliverRcpt
+    simp [hrev, hatt, hhide]
+
+/-- The recipient's side for a bystander whose connection is gone (the session waits to be resumed):
+unless the message is a chat refresh and one is queued already, it is queued - the bystander will see
+it when it resumes, and the tables change. -/
+theorem deliver_detached (st : St) (kind : String) (d : ServerData) (o : Obs) (hne : o.bMust ≠ [])
+    (hdet : st.world.rcpt.detached = true) (hhide : st.world.rcpt.hideNames = false)
+    (hnodup : st.world.rcpt.pendingChat = false) :
+    ∃ r, deliver Fc st kind d o = .ok { o with st := .chg } { st with world := { st.world with rcpt := r } } ∧
+      r.detached = true := by
+  have hrev : Fc.deferredTablesReviewed = true := by decide
+  obtain ⟨b, hb⟩ := isChatRefresh_ok d
+  unfold deliver
+  have hemp : o.bMust.isEmpty = false := by cases hbm : o.bMust with
+    | nil => exact absurd hbm hne
+    | cons a l => rfl
+  simp only [hemp, Bool.false_eq_true, if_false]
+  unfold deliverRcpt
+  simp only [hrev, hdet, hhide, hnodup, hb, Bool.not_true, Bool.false_eq_true, if_false, false_and, and_false, if_true]
+  by_cases hk : kind = "message"
+  · cases b <;> simp [hk, hdet]
+  · simp [hk, hdet]
+
+/-- **C10_addressed_message_delivered.** A plain `message` (no media server involved) whose recipient
+names the bystander's session or user, or the room the sender shares with it, *is* delivered to a
+bystander that is connected: together with `C10_bystanders` the bystander gets exactly that. -/
+theorem C10_addressed_message_delivered (st : St) (s : Sess) (m : ClientMessage) (mm : MessageMsg) (size : Nat)
+    (hc : st.conn = .session s) (hfed : s.fed = false) (hmcu : st.world.mcu = false) (hsz : size ≤ Fc.maxMessageSize)
+    (hv : checkValid Fc m = .ok) (ht : m.mtype = "message") (hmm : m.message = some mm)
+    (hn : namesBystander s mm.recipient = true) (hcall : mm.recipient.rtype ≠ "call")
+    (hatt : st.world.rcpt.detached = false) (hhide : st.world.rcpt.hideNames = false) :
+    ∃ o, processFrame Fc st { size := size, binary := false, dec := .ok m } = .ok o st ∧ o.bMust = ["message"] := by
+  rw [processFrame_plain_message st s m mm size hc hfed hmcu hsz hv ht hmm, deliver_attached _ _ _ _ hatt hhide]
+  simp only [Outcome.amb]
+  obtain ⟨h, hh⟩ := withHttp_ok st
+    (if s.seesRoom then { route s "message" mm.recipient (!st.world.virt.isEmpty) st.world.rcpt.inCall with
+        sMay := (route s "message" mm.recipient (!st.world.virt.isEmpty) st.world.rcpt.inCall).sMay ++ ambient }
+     else route s "message" mm.recipient (!st.world.virt.isEmpty) st.world.rcpt.inCall) st
+  refine ⟨_, hh, ?_⟩
+  have := route_names_bystander s mm.recipient (!st.world.virt.isEmpty) st.world.rcpt.inCall hn hcall
+  split <;> simp [this]
+
+/-- **C10_addressed_message_queued.** The same message for a bystander whose connection is gone (its
+session waits to be resumed), in whatever shape the payload is: it is queued (the bystander's share of
+the outcome is exactly the message, the tables change, the recipient stays resumable) - unless a chat
+refresh is queued already (then a second one is folded into it, `deliverRcpt`). -/
+theorem C10_addressed_message_queued (st : St) (s : Sess) (m : ClientMessage) (mm : MessageMsg) (size : Nat)
+    (hc : st.conn = .session s) (hfed : s.fed = false) (hmcu : st.world.mcu = false) (hsz : size ≤ Fc.maxMessageSize)
+    (hv : checkValid Fc m = .ok) (ht : m.mtype = "message") (hmm : m.message = some mm)
+    (hn : namesBystander s mm.recipient = true) (hcall : mm.recipient.rtype ≠ "call")
+    (hdet : st.world.rcpt.detached = true) (hhide : st.world.rcpt.hideNames = false)
+    (hnodup : st.world.rcpt.pendingChat = false) :
+    ∃ o next, processFrame Fc st { size := size, binary := false, dec := .ok m } = .ok o next ∧ o.bMust = ["message"] ∧
+      o.st = .chg ∧ next.conn = st.conn ∧ next.world.rcpt.detached = true := by
+  have hr := route_names_bystander s mm.recipient (!st.world.virt.isEmpty) st.world.rcpt.inCall hn hcall
+  obtain ⟨r, hd, hrd⟩ := deliver_detached st "message" mm.sdata
+    (route s "message" mm.recipient (!st.world.virt.isEmpty) st.world.rcpt.inCall) (by simp [hr]) hdet hhide hnodup
+  rw [processFrame_plain_message st s m mm size hc hfed hmcu hsz hv ht hmm, hd]
+  simp only [Outcome.amb]
+  obtain ⟨h, hh⟩ := withHttp_ok st
+    (if s.seesRoom then { ({ route s "message" mm.recipient (!st.world.virt.isEmpty) st.world.rcpt.inCall with st := .chg } : Obs) with
+        sMay := ({ route s "message" mm.recipient (!st.world.virt.isEmpty) st.world.rcpt.inCall with st := .chg } : Obs).sMay ++ ambient }
+     else { route s "message" mm.recipient (!st.world.virt.isEmpty) st.world.rcpt.inCall with st := .chg })
+    { st with world := { st.world with rcpt := r } }
+  refine ⟨_, _, hh, ?_, ?_, rfl, hrd⟩
+  · split <;> simp [hr]
+  · split <;> simp
 
 /-- **C10_forwarded_raw_valid.** What a valid `message`, `control` or `transient`
 hands on to other sessions verbatim (the model's `fwdKind`) is valid JSON: the
@@ -888,5 +1015,93 @@ theorem C10_total_needs_media_review :
 the sender, possibly a message for the addressed bystander. -/
 example : processFrame Fc (stMcu userInRoom) (frameOf requestOfferToBystander) =
     .ok (mcuObs { rtype := "session", sid := .by, uid := .empty }) (stMcu userInRoom) := by decide
+
+/-! ### a connection that is not a websocket of this server -/
+
+def helloV1 : ClientMessage :=
+  { roomWithoutRoom with
+    mtype := "hello",
+    hello := some { version := "1.0", resume := .empty, featDialout := false, featInCall := false,
+                    auth := some { atype := "", paramsNonEmpty := true, url := .known, v2TokenOk := false, v1Accept := true,
+                                   v1User := .named, ipOk := false, iBackend := .empty, iRandLen := 0, iTokenOk := false } } }
+
+/-- A connection proxied from another node of the cluster, without session. -/
+def stRemote : St := { St.init with remote := true }
+
+/-- The facts of the tree before the repair of `processRegister`: after `client, ok := c.(*Client)` the
+branch for `!ok` calls `client.SendMessage`. -/
+def factsBeforeRegisterFix : Facts := { Fc with failedAssertionUses := [("Hub.processRegister", "client.SendMessage")] }
+
+/-- With that use of the nil `client`, `C10_total` is false: a plain hello with credentials the backend
+accepts, on a connection that is not a `*Client`, ends the process; a websocket client is registered as
+ever.  With the facts as they are the proxied connection gets an error. -/
+theorem C10_total_needs_register_guard :
+    checkValid factsBeforeRegisterFix helloV1 = .ok ∧
+    processFrame factsBeforeRegisterFix stRemote (frameOf helloV1) =
+      .crash "processRegister: method call on the nil result of c.(*Client)" ∧
+    processFrame Fc stRemote (frameOf helloV1) = .ok { errObs "internal_error" with st := .any } stRemote ∧
+    (match processFrame factsBeforeRegisterFix St.init (frameOf helloV1) with
+      | .ok o _ => o.sMust
+      | .crash _ => []) = ["hello"] := by decide
+
+/-! ### the recipient's side -/
+
+/-- The bystander's connection is gone, its session waits to be resumed. -/
+def stDetached (s : Sess) (r : Rcpt) : St :=
+  { world := { mcu := false, transient := [], virt := [], rcpt := r }, conn := .session s, dialoutState := false }
+
+/-- `{"type":"chat"}` (no `chat` member) as the data of a message to the bystander's session. -/
+def chatWithoutPayload : ClientMessage :=
+  { msgToRoom with
+    message := some { recipient := { rtype := "session", sid := .by, uid := .empty }, dataNonEmpty := true, dataValid := true,
+                      data := { jsonOk := true, dtype := "chat", roomType := .empty, sdp := .none },
+                      sdata := { jsonOk := true, dtype := "chat", chat := none } } }
+
+def chatRefresh : ClientMessage :=
+  { msgToRoom with
+    message := some { recipient := { rtype := "session", sid := .by, uid := .empty }, dataNonEmpty := true, dataValid := true,
+                      data := { jsonOk := true, dtype := "chat", roomType := .empty, sdp := .none },
+                      sdata := { jsonOk := true, dtype := "chat", chat := some true } } }
+
+/-- The facts of a tree in which `IsChatRefresh` reads `data.Chat.Refresh` right after comparing the type. -/
+def factsWithoutChatGuard : Facts :=
+  { Fc with payloadDerefs := [("ServerMessage.IsChatRefresh", "<@MessageServerMessageData>.Chat", "Type=chat")] }
+
+/-- Without the nil check of the optional `chat` member `C10_total` is false, and it takes a recipient
+*without connection* to see it: the message passes `CheckValid` (the data is opaque, valid JSON), a
+connected bystander just receives it, a detached one has it queued - and the predicate that
+`storePendingMessage` asks dereferences nil. -/
+theorem C10_total_needs_payload_guard :
+    checkValid factsWithoutChatGuard chatWithoutPayload = .ok ∧
+    processFrame factsWithoutChatGuard (stDetached userInRoom { detached := true }) (frameOf chatWithoutPayload) =
+      .crash "ServerMessage.IsChatRefresh: data.Chat" ∧
+    processFrame factsWithoutChatGuard (stDetached userInRoom {}) (frameOf chatWithoutPayload) =
+      .ok { sMay := ambient, bMust := ["message"] } (stDetached userInRoom {}) := by decide
+
+/-- With the facts as they are the same message is queued for the detached bystander (`C10_addressed_message_queued`
+is not vacuous), a chat refresh is remembered, and a second one is folded into the first. -/
+example :
+    processFrame Fc (stDetached userInRoom { detached := true }) (frameOf chatWithoutPayload) =
+      .ok { sMay := ambient, bMust := ["message"], st := .chg } (stDetached userInRoom { detached := true }) ∧
+    processFrame Fc (stDetached userInRoom { detached := true }) (frameOf chatRefresh) =
+      .ok { sMay := ambient, bMust := ["message"], st := .chg } (stDetached userInRoom { detached := true, pendingChat := true }) ∧
+    processFrame Fc (stDetached userInRoom { detached := true, pendingChat := true }) (frameOf chatRefresh) =
+      .ok { sMay := ambient } (stDetached userInRoom { detached := true, pendingChat := true }) := by decide
+
+/-- The rest of the recipient's side is covered through the reviewed tables only: with one more decode,
+dereference, assertion or call in it that nobody has looked at, a plain message to the bystander is a crash. -/
+def factsWithUnreviewedDelivery : Facts := { Fc with deferredTablesReviewed := false }
+
+theorem C10_total_needs_deferred_review :
+    processFrame factsWithUnreviewedDelivery (stOf userInRoom false) (frameOf msgToRoom) =
+      .crash "recipient side: a decode / dereference / type assertion / index expression / call that is not a reviewed one" := by
+  decide
+
+/-- A recipient with `hide-displaynames` does not get `nickChanged`; a message to the `call` reaches the
+bystander only if it is in the call. -/
+example :
+    (deliverRcpt Fc { hideNames := true } "message" { jsonOk := true, dtype := "nickChanged" } = .dropped) ∧
+    (route userInRoom "message" { rtype := "call", sid := .empty, uid := .empty } false true).bMust = ["message"] ∧
+    (route userInRoom "message" { rtype := "call", sid := .empty, uid := .empty } false false).bMust = [] := by decide
 
 end SigModel.ShapesClient
